@@ -21,6 +21,9 @@ The fitted estimator is then *read* through its public read-only methods (get_sh
 visualize() on the Agg backend): labels, rows_, columns_ and the cluster counts must be what they were, the accessors must
 return the label pre-images, and the membership oracle is run again (`after_reads`; every third case of the two main
 streams, every case of the epochs / dual / topo-rows streams).
+`layout_stream`: the caller's matrix in a memory layout other than C order (Fortran order, transposed / strided / reversed
+views), BLAS-dot column modules, decimal-grid data with column pairs whose dot product is exactly the vigilance; the column
+module alone is handed X.T of the very same array (oracle only).
 """
 from __future__ import annotations
 
@@ -621,6 +624,211 @@ def dual_modules(ctx):
         cov.case(("dual", nr, nc, eta, side, i), merged)
 
 
+# ------------------------------------------------------------------ memory layout of the caller's matrix
+
+LAYOUTS = ["fortran", "transposed-view", "row-strided-view", "column-strided-view", "reversed-view", "c-contiguous"]
+
+
+def with_layout(D, layout):
+    """the same numbers, held in memory another way (what a caller gets from np.asfortranarray, from D.T of a table kept
+    features x samples, from slicing a bigger table, from flipping it)"""
+    D = np.ascontiguousarray(D, dtype=float)
+    nr, nc = D.shape
+    if layout == "fortran":
+        X = np.asfortranarray(D)
+    elif layout == "transposed-view":
+        X = np.ascontiguousarray(D.T).T
+    elif layout == "row-strided-view":
+        big = np.full((2 * nr, nc), 0.5, order="F")
+        big[::2] = D
+        X = big[::2]
+    elif layout == "column-strided-view":
+        big = np.full((nr, 2 * nc), 0.5)
+        big[:, ::2] = D
+        X = big[:, ::2]
+    elif layout == "reversed-view":
+        X = np.asfortranarray(D[::-1, ::-1])[::-1, ::-1]
+    else:
+        X = D
+    assert np.array_equal(X, D)
+    return X
+
+
+def decimal_matrix(r, nr, nc, binary, planted=False):
+    """nr x nc matrix of tenths (0/1 when `binary`); every row holds a 0 and a 1 (so the column module's min-max
+    normalisation of X.T is the identity and the column vectors stay on the decimal grid), no column is constant.
+    `planted`: a base column b and several dense columns a with a.b = R hundredths *exactly* (integer arithmetic), R <= 100,
+    in shuffled positions; the other columns are sparse and carry the 0s and 1s the rows need.
+    Returns (integer matrix in tenths, R or None) — the caller divides by 10."""
+    def sparse():
+        if binary:
+            return [r.choice([0, 0, 10]) for _ in range(nr)]
+        return [0 if r.random() < 0.5 else r.randint(1, 10) for _ in range(nr)]
+    for _ in range(50):
+        cols, R = [], None
+        if planted and not binary and nc >= 5:
+            hi = r.choice([3, 5, 6])
+            g = np.random.default_rng(r.getrandbits(48))
+            dense = lambda m: g.integers(1, hi + 1, size=(m, nr)) * (g.random((m, nr)) >= 0.1)
+            b = dense(1)[0]
+            R = r.choice([30, 40, 50, 60, 70, 80, 90, 100, r.randint(10, 100)])
+            cand = dense(1500)
+            cand = cand[cand @ b == R]
+            cols = [b.tolist()] + cand[:r.randint(2, nc - 3)].tolist()
+            if len(cols) < 3:
+                continue
+        free = [sparse() for _ in range(nc - len(cols))]
+        for i in range(nr):
+            row = [c[i] for c in cols + free]
+            j0, j1 = r.sample(range(len(free)), 2)
+            if 0 not in row:
+                free[j0][i] = 0
+            if 10 not in row:
+                free[j1][i] = 10
+        allc = cols + free
+        r.shuffle(allc)
+        Z = np.array(allc, dtype=int).T
+        if np.all(Z.max(axis=0) > Z.min(axis=0)) and np.all(Z.min(axis=1) == 0) and np.all(Z.max(axis=1) == 10):
+            return Z, R
+    return None, None
+
+
+def layout_stream(ctx):
+    """"After BARTMAP.fit on any data matrix ... the column clustering equals what the column module alone produces on the
+    transposed matrix": a data matrix is the numbers in it, however the caller's array holds them in memory.  Matrices
+    that are not C-contiguous (Fortran order, a transposed view D.T, strided / reversed views) with a column module whose
+    activation is a BLAS dot / matmul of the sample vector (ART2A, ART1, QuadraticNeuronART; >= 4 matrix rows, where the
+    summation order of the kernel depends on the stride), decimal-grid data and a vigilance that is *exactly* the value of
+    some column-by-column dot product (rho = 0.9 with a dot product of exactly 90 hundredths): whether 0.9 or
+    0.8999999999999999 comes out decides the match.  The fresh column module is handed X.T of the very same array object
+    (same memory layout for both), so on a correct BARTMAP the two computations are the same floating-point program.
+    Oracle: the whole statement (shapes, partition, membership, columns == module alone incl. weights and counters)."""
+    cov = ctx.cov
+    n_exact = 0
+    for i in range(ctx.scale(240, 2400)):
+        r = gen.rng_for(ctx.seed, "C17/layout", i)
+        layout = LAYOUTS[i % len(LAYOUTS)]
+        cb = r.choice(["ART2A", "ART2A", "ART2A", "ART2A", "QuadraticNeuronART", "ART1"])
+        nr = r.randint(4, 12)
+        square = r.random() < 0.5
+        nc = nr if square else r.choice([c for c in range(4, 13) if c != nr])
+        Z, R = decimal_matrix(r, nr, nc, binary=(cb == "ART1"), planted=r.random() < 0.7)
+        if Z is None:
+            cov.hit("layout:no-matrix")
+            continue
+        X = with_layout(Z / 10.0, layout)
+        # exact column-by-column dot products, in hundredths (integers): the vigilances some dot product hits exactly
+        G = Z.T @ Z
+        exact = sorted({int(v) for v in G[np.triu_indices(nc, 1)] if 0 < v <= 100})
+        on_dot = bool(exact) and (R is not None or r.random() < 0.75)
+        rho = ((R if R is not None else r.choice(exact)) / 100.0) if on_dot else r.choice([0.1, 0.3, 0.5, 0.7, 0.8, 0.9, 1.0])
+        if cb == "ART2A":
+            # beta = 1: the weight is the last matched column; beta = 0: the first one, for good
+            sb = {"cls": cb, "rho": rho, "alpha": r.choice([1e-7, 0.0, 2.0 ** -6]), "beta": r.choice([1.0, 1.0, 0.0, 0.0, 0.5])}
+        elif cb == "ART1":
+            sb = {"cls": cb, "rho": r.choice([0.25, 0.5, 0.75, rho]), "L": r.choice([2.0, 1.5, 3.0, 1.1])}
+        else:
+            sb = {"cls": cb, "rho": r.choice([0.1, 0.3, 0.5, 0.7, 0.9]), "s_init": r.choice([0.5, 1.0, 2.0]),
+                  "lr_b": r.choice([0.1, 0.5, 1.0]), "lr_w": r.choice([0.1, 0.3, 0.5]), "lr_s": r.choice([0.0, 0.1])}
+        ca = "ART1" if cb == "ART1" and r.random() < 0.5 else r.choice(["FuzzyART", "FuzzyART", "HypersphereART", "ART2A"])
+        sa = specs.elem_spec(r, ca, nc)
+        real = square and r.random() < 0.4
+        eta = r.choice(ETAS)
+        vt = None if real else gen.veto_table(r, nr, nr + 1)
+        rep = {"stream": "layout", "layout": layout, "flags": {"C_CONTIGUOUS": bool(X.flags.c_contiguous),
+               "F_CONTIGUOUS": bool(X.flags.f_contiguous)}, "strides": list(X.strides),
+               "module_a": sa, "module_b": sb, "eta": eta, "X": X.tolist(), "tenths": Z.tolist(), "veto": vt,
+               "reset_function": "shipped" if real else "veto table"}
+        try:
+            with quiet():
+                pa, pb = make(sa), make(sb)
+                pa.validate_data(pa.prepare_data(X))
+                pb.validate_data(pb.prepare_data(X.T))
+                bm, alone = BARTMAP(make(sa), make(sb), eta), make(sb)
+        except Exception as e:
+            cov.hit(f"layout:prepare-rejects:{exc_enum(e)}")
+            continue
+        if not real:
+            def reset(i_, w, cluster_a, params, extra, cache=None, _vt=vt):
+                return not _vt[extra["k"]][cluster_a]
+            object.__setattr__(bm, "match_reset_func", reset)
+        cov.hit(f"layout:{layout}")
+        cov.hit(f"layout:column-module:{cb}")
+        cov.hit("layout:reset:" + ("shipped" if real else "veto-table"))
+        if on_dot and cb == "ART2A":
+            n_exact += 1
+            cov.hit("layout:vigilance-equals-an-exact-column-dot-product")
+            cov.hit(f"layout:column-pairs-exactly-on-the-vigilance:{min(int((np.triu(G, 1) == round(rho * 100)).sum()), 4)}{'+' if (np.triu(G, 1) == round(rho * 100)).sum() > 4 else ''}")
+        flags0, strides0, X0 = (X.flags.c_contiguous, X.flags.f_contiguous), X.strides, X.copy()
+        raised = None
+        try:
+            with quiet():
+                bm.fit(X)
+        except Exception as e:
+            raised = classify(e, X, bm)
+            if raised not in (SIG_NONSQUARE, SIG_WIDTH1) or not real:
+                ctx.issue("violation", "BARTMAP.fit:layout:" + raised,
+                          f"BARTMAP({ca}/{cb}, eta={eta}).fit raised {e!r} on a finite {nr}x{nc} {layout} matrix accepted by "
+                          f"prepare_data/validate_data"[:500], rep)
+                continue
+            # the two known ways the shipped reset function fails (reported by the real stream); the column module was
+            # fitted before the row pass, the column clause is still checked
+            cov.hit("layout:row-pass-raised:" + raised)
+        if (X.flags.c_contiguous, X.flags.f_contiguous) != flags0 or X.strides != strides0 or not np.array_equal(X, X0):
+            ctx.issue("violation", "BARTMAP.fit:layout:mutates-X", f"the caller's {layout} matrix changed during fit", rep)
+            continue
+        # ---- column module alone, on the transpose of the very same array
+        try:
+            with quiet():
+                alone.fit(alone.prepare_data(X.T))
+                cl = [int(t) for t in bm.column_labels_]
+                nb = int(bm.n_column_clusters)
+                al = [int(t) for t in alone.labels_]
+        except Exception as e:
+            ctx.issue("violation", f"BARTMAP.fit:layout:columns-alone:{exc_enum(e)}",
+                      f"column module alone raised {e!r} on X.T of a {layout} matrix BARTMAP.fit accepted", rep)
+            continue
+        rep2 = {**rep, "column_labels": cl, "nb": nb, "column_module_alone_labels": al,
+                "column_module_alone_n_clusters": len(alone.W)}
+        same_w = (len(alone.W) == len(bm.module_b.W) and
+                  all(np.array_equal(np.asarray(u, dtype=float), np.asarray(v, dtype=float), equal_nan=True)
+                      for u, v in zip(alone.W, bm.module_b.W)) and
+                  [int(t) for t in alone.weight_sample_counter_] == [int(t) for t in bm.module_b.weight_sample_counter_])
+        if al != cl or len(alone.W) != nb:
+            ctx.issue("violation", "BARTMAP.fit:layout:columns-alone",
+                      f"{layout} {nr}x{nc} matrix, column module {cb}(rho={sb['rho']}): BARTMAP column_labels_ {cl} "
+                      f"({nb} clusters) but the column module alone on X.T (same array, same layout) gives {al} "
+                      f"({len(alone.W)} clusters)", rep2)
+        elif not same_w:
+            ctx.issue("violation", "BARTMAP.fit:layout:columns-alone:weights",
+                      f"{layout} {nr}x{nc} matrix, column module {cb}: same column labels {cl} but the weights / sample "
+                      f"counters of BARTMAP's column module differ from the module fitted alone on X.T", rep2)
+        else:
+            cov.hit("layout:columns-equal-module-alone")
+        if len(alone.W) >= 2:
+            cov.hit("layout:column-clusters>=2")
+        if raised is not None:
+            continue
+        # ---- the rest of the statement
+        st = _fitted_state(bm)
+        na = st["n_row_clusters"]
+        rep2 = {**rep2, "row_labels": st["row_labels_"].tolist(), "na": na}
+        if st["rows_"].shape != (na * nb, nr) or st["columns_"].shape != (na * nb, nc):
+            ctx.issue("violation", "BARTMAP.fit:layout:shapes",
+                      f"rows_ {st['rows_'].shape} columns_ {st['columns_'].shape}; {na} row x {nb} column clusters on a "
+                      f"{layout} {nr}x{nc} matrix", rep2)
+        elif not np.all(st["rows_"].astype(int).T @ st["columns_"].astype(int) == 1):
+            ctx.issue("violation", "BARTMAP.fit:layout:partition", f"{layout} matrix: some cell is not in exactly one bicluster", rep2)
+        elif not _membership_holds(st, nr, nc):
+            ctx.issue("violation", "BARTMAP.fit:layout:membership",
+                      f"{layout} matrix: a bicluster differs from the pre-images of row_labels_ / column_labels_", rep2)
+        else:
+            cov.hit("layout:checkerboard-ok")
+        cov.hit("layout:fit-returned")
+        cov.case(("layout", layout, repr(sa), repr(sb), eta, Z.tobytes(), repr(vt)), na >= 2 or nb >= 2)
+    cov.branches["layout:cases-with-vigilance-on-an-exact-dot-product"] = n_exact
+
+
 
 def prepare(ctx):
     """Translator tie (see gen_tie.py): the source of this slice is re-translated to Lean on every run
@@ -685,6 +893,7 @@ def run(ctx):
     multi_epoch(ctx)
     dual_modules(ctx)
     pruning_row_module(ctx)
+    layout_stream(ctx)
 
 
 def pruning_row_module(ctx):
